@@ -54,7 +54,7 @@ func init() {
 		[]string{"nothing numeric is needed for this property"},
 		"a Condition carrying a System* flag always becomes an error (C03.R1/R3), so such returns need not deliver a complete value", "math/big mod/ref table", "hand summaries of the unsafe helpers")
 	prop("C07", "Every finite result fits the context it was computed in",
-		[]string{"C07.R1", "C07.R2", "C07.R3", "C07.R4", "C07.R5", "C07.R6", "C01.R3", "C16.R5", "C07.R7", "C07.R8", "C07.R9", "C01.R8"},
+		[]string{"C07.R1", "C07.R2", "C07.R3", "C07.R4", "C07.R5", "C07.R6", "C01.R3", "C16.R5", "C07.R7", "C07.R8", "C07.R9", "C01.R8", "C07.R10"},
 		"Decides: in every rounding operation the value delivered by each return has passed a setExponent range check after its last coefficient/exponent write (or is a whole-value copy, a small constant, or a tabled exception with its invariant); rounding increments are renormalised through roundAddOne; signed inputs to coefficients are sign-normalised; Context.Reduce strips after rounding.",
 		[]string{"that Rounder.Round removes exactly NumDigits−Precision digits (digit arithmetic)"})
 	prop("C08", "Special values follow the decimal arithmetic rules in every operation",
@@ -70,7 +70,7 @@ func init() {
 		"Decides sibling agreement of QuoInteger and Rem: both align with upscale and propagate its error, divide exactly once with truncating Quo/QuoRem on the aligned coefficients in order, test DivisionImpossible on that very quotient's digit count; QuoInteger's sign is x≠y and its exponent 0, Rem's sign is x's; Rem rounds once; the divisor is behind y's IsZero test.",
 		[]string{"the identity x = q·y + r itself (math/big arithmetic and alignment arithmetic)"})
 	prop("C11", "Sqrt is correctly rounded; Cbrt is within one unit and exact on perfect cubes",
-		[]string{"C11.R1", "C11.R2", "C11.R3", "C11.R4", "C04.R4", "C03.R5", "C12.R5", "C11.R5"},
+		[]string{"C11.R1", "C11.R2", "C11.R3", "C11.R4", "C04.R4", "C03.R5", "C12.R5", "C11.R5", "C11.R6"},
 		"Decides only structure: Sqrt's final rounding runs with Precision = c.Precision and Rounding = half-even on a working context of larger precision; Cbrt returns zero flags only under operand == d³; both take specials from rootSpecials; their loops are bounded and their wrapper errors surfaced; Sqrt corrects its last digit and derives Inexact from an exact comparison of the candidate's square with the operand; Cbrt works on the operand scaled by its digit count, locates the root among Precision-digit candidates by exact cubes, and every exit applies the scale.",
 		[]string{"correct rounding of Sqrt and the 1-ulp bound of Cbrt: real-analysis error bounds of Newton iterations with tuned guard digits — no sound static argument in reach"})
 	prop("C12", "Exp, Ln, Log10 and Pow are accurate to one unit in the last place",
